@@ -28,6 +28,87 @@ def check(ctx, cfg):
     r2(ctx, cfg)
     r3(ctx, cfg)
     r4(ctx, cfg)
+    r5(ctx, cfg)
+
+
+def r5(ctx, cfg):
+    """shape of the carry loop in namespace_upper_bound: a copy of the input, indices len-1 .. 0, a 0xFF byte becomes 0
+    and the scan continues, the first other byte is incremented by one and the scan stops (decides the structure of the
+    carry arithmetic, not byte-level facts about its result)"""
+    F, P = cfg.facts, cfg.prov
+    R = "C07.R5"
+    key = NH + "namespace_upper_bound"
+    f = ctx.need_fn(R, key)
+    if f is None:
+        return
+    cf = cfg_of(f)
+    l = _ret_local(f)
+    whole = [d for d in P.defs(f).get(l, []) if not d[3]["dst"]["p"]] if l is not None else []
+    ok = len(whole) == 1 and is_param(P.call_origin(f, whole[0][3], whole[0][1]) if whole[0][0] == "call" else P.rvalue(f, whole[0][3]["rv"], (whole[0][1], whole[0][2])), "input")
+    ctx.ob(R, key, "result-is-a-copy-of-the-input", ok, "namespace_upper_bound does not return a (modified) copy of its input", fn=f, sample="copy = input.to_vec(); ..; copy")
+    # iteration space: (0..input.len()).rev()
+    rng = [(b, i, st) for b, i, st in f.stmts() if st["k"] == "assign" and st["rv"].get("k") == "aggregate" and st["rv"].get("adt") == "std::ops::Range"]
+    ok = len(rng) == 1
+    d = "no Range aggregate"
+    if ok:
+        b, i, st = rng[0]
+        o = P.rvalue(f, st["rv"], (b, i))
+        dd = dict(o[2])
+        s, e = peel(dd["start"]), peel(dd["end"])
+        d = "%s..%s" % (fmt(s), fmt(e))
+        ok = s == ("const", "int", 0) and e[0] == "call" and e[1].endswith("len") and is_param(e[2][0], "input")
+        revs = [t for bb, t in f.calls() if t["callee"]["key"] == "std::iter::Iterator::rev"]
+        ok = ok and len(revs) == 1
+    ctx.ob(R, key, "scans-every-index-from-the-end", ok, "carry loop iterates %s (expected (0..input.len()).rev())" % d, fn=f, sample="(0..input.len()).rev()")
+    # the byte test and the two arms
+    guards = []
+    for bid in f.order:
+        t = f.blocks[bid]["term"]
+        if t["k"] == "switch" and t.get("discr_ty") == "bool" and "discr_of" not in t:
+            pred, args, pol = q.norm_cond(P.operand(f, t["discr"], (bid, "t")), True)
+            if pred == "eq" and any(peel(x) == ("const", "int", 255) for x in args):
+                guards.append((bid, t, pol))
+    ok = len(guards) == 1
+    ctx.ob(R, key, "tests-byte==0xFF", ok, "expected one `copy[i] == 255` test, found %d" % len(guards), fn=f, sample="copy[i] == 255")
+    if not ok:
+        return
+    gb, gt, pol = guards[0]
+    ff_edge = other_edge = None
+    for e, v, n, tb in cf.switch_edges(gb):
+        val = True if v is None else (v != 0)
+        if val == pol:
+            ff_edge = e
+        else:
+            other_edge = e
+    nxt = [b for b, t in f.calls() if t["callee"]["name"] == "next" and t["callee"].get("trait") == "std::iter::Iterator"]
+    # writes through index_mut
+    writes = []
+    for b, i, st in f.stmts():
+        if st["k"] == "assign" and st["dst"]["p"] and st["dst"]["p"][0]["k"] == "deref":
+            base = peel(P.local(f, st["dst"]["l"], (b, i)))
+            while base[0] == "upd":
+                base = peel(base[1])
+            if base[0] == "call" and base[1].endswith("IndexMut::index_mut"):
+                writes.append((b, i, st, peel(P.rvalue(f, st["rv"], (b, i)))))
+    zero = [(b, v) for b, i, st, v in writes if v == ("const", "int", 0)]
+    inc = [(b, v) for b, i, st, v in writes if v[0] in ("binop", "field") and contains(v, lambda x: x[0] == "binop" and x[1] == "add" and peel(x[3]) == ("const", "int", 1))]
+    ok = len(writes) == 2 and len(zero) == 1 and len(inc) == 1
+    ctx.ob(R, key, "two-writes: 0 and +1", ok, "carry loop writes %s" % [fmt(v)[:40] for b, i, st, v in writes], fn=f, sample="copy[i] = 0 | copy[i] += 1")
+    if ok and nxt:
+        zb, ib = zero[0][0], inc[0][0]
+        ok1 = cf.dominates(ff_edge, zb) and not cf.dominates(ff_edge, ib) and cf.dominates(other_edge, ib)
+        ctx.ob(R, key, "0xFF->0, other->+1", ok1, "the arms of the byte test are swapped or misplaced", fn=f, sample="== 255: zero it; else: increment")
+        # after zeroing the scan continues (reaches next()), after incrementing it stops (never reaches next())
+        ok2 = nxt[0] in cf.reachable_from(zb) and nxt[0] not in cf.reachable_from(ib)
+        ctx.ob(R, key, "carry-continues-after-0xFF-stops-after-increment", ok2, "the scan does not continue after a 0xFF byte / does not stop after the increment", fn=f,
+               sample="zero -> next(); increment -> return")
+        # both writes index by the loop variable
+        idx_ok = True
+        for b, t in f.calls():
+            if t["callee"]["name"] in ("index", "index_mut"):
+                a = P.call_args(f, t, b)
+                idx_ok = idx_ok and peel(a[1])[0] == "some" and contains(a[1], lambda x: x[0] == "call" and x[1].endswith("Iterator::next"))
+        ctx.ob(R, key, "indexed-by-the-scan-position", idx_ok, "a byte is read or written at an index other than the scan position", fn=f, sample="copy[i]")
 
 
 def _self_field(o, name):
